@@ -715,6 +715,13 @@ func genCase(t *rapid.T) Case {
 				&sg.Node{Kind: "container", Name: b, Kids: []*sg.Node{{Kind: "uses", Name: gn, Refines: []sg.Refine{{Target: "shp", Stmts: []string{`presence "refined";`}}},
 					Augments: []*sg.Augment{{Target: "shch/shcs", Kids: []*sg.Node{{Kind: "leaf", Name: "incase", Type: str}}}}}}})
 			m.Augments = append(m.Augments, &sg.Augment{Target: "/" + m.Prefix + ":" + a + "/" + m.Prefix + ":shc", Kids: []*sg.Node{{Kind: "leaf", Name: "extra", Type: str}}})
+			// ... and a third and fourth use, as plain as the first: each use is a copy of its own
+			if g.Bool("moreplainuses") {
+				c3, c4 := x.id("shd"), x.id("she")
+				m.Nodes = append(m.Nodes, &sg.Node{Kind: "container", Name: c3, Kids: []*sg.Node{{Kind: "uses", Name: gn}}},
+					&sg.Node{Kind: "container", Name: c4, Kids: []*sg.Node{{Kind: "leaf", Name: "before", Type: str}, {Kind: "uses", Name: gn}}})
+				m.Augments = append(m.Augments, &sg.Augment{Target: "/" + m.Prefix + ":" + c4 + "/" + m.Prefix + ":shp", Kids: []*sg.Node{{Kind: "leaf", Name: "extra4", Type: str}}})
+			}
 		}
 		if g.Chance(1, 5, "extensionnamesake") {
 			// the use of an extension whose argument reads like the name of a node of the same grouping body: a refine or
